@@ -5,10 +5,15 @@ pub mod c02;
 pub mod c03;
 pub mod c04;
 pub mod c06;
+pub mod c07;
 pub mod c08;
 pub mod c09;
 pub mod c10;
 pub mod c11;
+pub mod c12;
+pub mod c13;
+pub mod c14;
+pub mod c15;
 
 /// Instantiates a generic scenario function for a named (key, value) pair of the element menu.
 #[macro_export]
@@ -30,6 +35,8 @@ macro_rules! for_pair {
             "A64xP8" => $f::<A64, P8>($($arg),*),
             "P8xA64" => $f::<P8, A64>($($arg),*),
             "ZxT24" => $f::<Z, T24>($($arg),*),
+            "B1xL200" => $f::<B1, L200>($($arg),*),
+            "B1xT24" => $f::<B1, T24>($($arg),*),
             other => panic!("unknown element pair {}", other),
         }
     }};
@@ -68,10 +75,15 @@ pub fn dispatch(c: &mut Ctx) -> bool {
         "C03" => c03::run(c),
         "C04" => c04::run(c),
         "C06" => c06::run(c),
+        "C07" => c07::run(c),
         "C08" => c08::run(c),
         "C09" => c09::run(c),
         "C10" => c10::run(c),
         "C11" => c11::run(c),
+        "C12" => c12::run(c),
+        "C13" => c13::run(c),
+        "C14" => c14::run(c),
+        "C15" => c15::run(c),
         _ => return false,
     }
     true
